@@ -363,6 +363,14 @@ func Run(r *fw.Run) {
 	r.Rule = "state = one complete execution (schedule) of a closed 2-3 goroutine driver of the real client against the real sumdb.Server/TestServer under a cooperative scheduler that owns every sync/atomic operation of package sumdb and every ClientOps call; stateless depth-first search with replay over all schedules within a bound on deviations from the default schedule (every non-default choice counts, blocking points included) and, for the small scenarios, within a preemption bound with free switches at blocking points; at two granularities: ops (ClientOps calls + blocking) and sync (every synchronisation operation). transitions = scheduling points executed. non-trivial = schedule with at least one preemption. Oracle per execution: all lookups succeed with the server's lines; each lookup key read from cache and from network at most once per client; stored head monotone, true, and finally the largest head seen; GONOSUMDB path causes no external operation; no deadlock, livelock or panic. A separate free-running -race pass looks for data races (sampling)."
 	r.Assume = []string{"the scheduler models sequentially consistent interleavings of the intercepted operations; unsynchronised accesses are the business of the separate race pass", "shards that hit their time limit leave part of the bounded space unexplored: reported per scenario and as exhaustive=false"}
 	RunSchedules(r, scs, cfgs, perJob, total)
+	// larger logs (many tiles per read): the default schedule (thorough: and every single deviation from it);
+	// the free-running pass below runs them too
+	var bigNames []string
+	for _, s := range scen.Big() {
+		bigNames = append(bigNames, s.Name)
+	}
+	r.Bounds["big_log_scenarios"] = bigNames
+	RunSchedules(r, scen.Big(), []Config{{Gran: "ops", Mode: "deviations", Bound: r.Pick(0, 1), Only: nil}}, perJob, total)
 	RunRace(r, r.Pick(60, 400))
 	r.Sample(CaseT{Scenario: "two-keys-growing-log", Granularity: "ops", Schedule: []int{0, 1, 0, 2}})
 }
